@@ -147,7 +147,7 @@ class PathState(object):
         self.inputs = {}            # name -> z3 var (harness inputs, for concretisation)
         self.depth = 0              # interpreted call depth
         self.raw_ok = raw_ok if raw_ok is not None else frozenset()   # ids of lemmas the stored model satisfies
-        self.raw_seen = []
+        self.raw_seen = set()       # lemmas met on this path so far: all of them are asserted in the current solver
         self.decided = {}
         self.memo = {}
         self.shadow = {}            # id(real dict) -> (real dict, path-local SymDict) for dicts written by interpreted code
@@ -215,12 +215,14 @@ class PathState(object):
         cid = cond.get_id()
         if cid not in ex.raw_done:
             ex.raw_done[cid] = cond
+            ex.raw_keep.setdefault(cid, cond)
             _assert(self.solver, cond)
+        self.raw_seen.add(cid)
         if cid in self.raw_ok:
-            return      # already satisfied by the model stored with this path (same lemma, by identity:
-                        # a positional count is unsound, re-execution may build a structurally different lemma)
-        ex.raw_keep.setdefault(cid, cond)
-        self.raw_seen.append(cid)
+            # the model this path holds was produced with this very lemma asserted (by identity: a
+            # positional count is unsound, re-execution may build a structurally different lemma;
+            # raw_ok is replaced whenever the model is)
+            return
         if self.model_valid:
             if not z3.is_true(self.model.eval(cond, model_completion=True)):
                 self.model_valid = False
@@ -240,7 +242,7 @@ class PathState(object):
             if r == z3.sat:
                 self.model = self.solver.model()
                 self.model_valid = True
-                self.model_src = "ensure@%d" % len(self.keys)
+                self.raw_ok = frozenset(self.raw_seen)
             elif r == z3.unsat:
                 # must not happen: every literal is added on a side known to be feasible
                 self.ex.note_inconclusive("engine anomaly: path condition became unsatisfiable")
@@ -333,7 +335,7 @@ class PathState(object):
         other_ast = px.nb_ast if d else px.b_ast
         r = self._check(other_ast)
         if r == z3.sat:
-            ex.push_work(self.keys + [-k1 if d else k1], self.solver.model(), self.raw_ok.union(self.raw_seen))
+            ex.push_work(self.keys + [-k1 if d else k1], self.solver.model(), frozenset(self.raw_seen))
         elif r == z3.unsat:
             core = ex.core_keys(other_ast)
             if core is not None:
